@@ -46,6 +46,16 @@ def main():
         if not os.path.isdir(wt):
             subprocess.run(["git", "-C", "/repo", "worktree", "add", "-q", "--detach", wt, "HEAD"], check=True)
         text = f"{p['id']} — {p['title']}\n\nStatement: {p['statement']}\n\nQuantified over: {p['quantifier']['text']}\n"
+        # what earlier rounds already did for this property: ask for something else
+        import glob
+
+        earlier = []
+        for mp in sorted(glob.glob(f"/verif/benign/{pid}-*/meta.json")):
+            for pf, rec in sorted(json.load(open(mp)).get("patches", {}).items()):
+                if rec.get("summary"):
+                    earlier.append(f"  - ({rec.get('kind', '?')}) {rec['summary'][:220]}")
+        if earlier:
+            text += "\nOther maintainers have ALREADY made the following changes (do not repeat them; choose different functions, files and kinds of edit — e.g. restructure control flow, rename locals/private helpers, change how a condition or a comparison is written, split or merge functions, convert between loop/comprehension/generator, move code between sync and async twins consistently, replace a dict dispatch by if/elif or vice versa):\n" + "\n".join(earlier) + "\n"
         open(f"/tmp/benign/_props/{name}.prompt", "w").write(PROMPT.format(WT=wt, PROP=text, NAME=name))
         print(name, wt)
 
